@@ -43,6 +43,15 @@ CHECKS = {
         note=('Trusted: vf/refsem.py; modal operator rules judged against K semantics of the base logic, frame '
               'conditions separately. Components are atomic (compound components are covered by the in-proof step '
               'checker used for attribution).')),
+    'C05': dict(
+        category='exploration',
+        technique='complete enumeration of literal sets x insertion orders against reference satisfiability (finite-domain PBT oracle)',
+        text=('Complete finite enumeration (exhaustive: true): every logic x subject kind x subset of literal constraints x '
+              'insertion order (plus the classical self-identity / existence literals and cross-world pairs); the branch '
+              'must be closed exactly when no reference value satisfies the literals, and the model read from an open '
+              'one must satisfy them.'),
+        design_ref='DESIGN.md section 5 C05',
+        note='Trusted: negation tables and designated sets of vf/refsem.py.'),
 }
 
 NOT_YET = 'check not built yet in this session (planned, see DESIGN.md section 5); no claim is made'
